@@ -10,6 +10,7 @@ import (
 	"os"
 	"path"
 	"path/filepath"
+	"runtime/debug"
 	"sort"
 	"strings"
 	"time"
@@ -122,6 +123,7 @@ func marshalShuffled(v any, r *rand.Rand) []byte {
 type flatRun struct {
 	err   error
 	panic string
+	stack string
 	out   []byte
 	an    *analysis.Spec
 	sw    *spec.Swagger
@@ -155,6 +157,7 @@ func flattenOnce(dir string, o flatOpts, failAt int) (res flatRun) {
 		res.loads = loads
 		if r := recover(); r != nil {
 			res.panic = fmt.Sprint(r)
+			res.stack = panicSite(string(debug.Stack()))
 		}
 	}()
 	res.sw = &sw
@@ -211,7 +214,8 @@ func flattenChild(in any) any {
 	res := M{"loads": r1.loads}
 	if r1.panic != "" {
 		res["panic"] = r1.panic
-		return res
+		res["panicStack"] = r1.stack
+		return M{"ok": res}
 	}
 	if r1.err != nil {
 		res["flattenErr"] = string(scrubDir([]byte(r1.err.Error()), dir))
@@ -424,12 +428,54 @@ func knownFormatsIn(doc any) []any {
 
 // normAux puts an auxiliary document (a definitions container) in serialization normal form.
 func normAux(doc any) any {
-	n, err := normDoc(M{"swagger": "2.0", "paths": M{}, "definitions": get(doc, "definitions")})
+	in := M{"swagger": "2.0", "paths": M{}, "definitions": get(doc, "definitions")}
+	for _, k := range []string{"responses", "parameters"} {
+		if v := get(doc, k); v != nil {
+			in[k] = v
+		}
+	}
+	n, err := normDoc(in)
 	if err != nil {
 		return nil
 	}
-	return M{"definitions": get(n, "definitions")}
+	out := M{"definitions": get(n, "definitions")}
+	for _, k := range []string{"responses", "parameters"} {
+		if v := get(n, k); v != nil {
+			out[k] = v
+		}
+	}
+	return out
 }
 
 var _ = swag.ToGoName
 var _ = time.Second
+
+// panicSite extracts the frames of go-openapi code from a stack trace (where the panic happened).
+func panicSite(stack string) string {
+	var out []string
+	lines := strings.Split(stack, "\n")
+	for i, ln := range lines {
+		if strings.Contains(ln, "github.com/go-openapi/") && !strings.HasPrefix(ln, "\t") {
+			fn := ln
+			if j := strings.Index(fn, "("); j > 0 {
+				fn = fn[:j]
+			}
+			fn = strings.TrimPrefix(fn, "github.com/go-openapi/")
+			loc := ""
+			if i+1 < len(lines) {
+				loc = strings.TrimSpace(lines[i+1])
+				if j := strings.Index(loc, " +0x"); j > 0 {
+					loc = loc[:j]
+				}
+				if j := strings.LastIndex(loc, "/"); j >= 0 {
+					loc = loc[j+1:]
+				}
+			}
+			out = append(out, fn+"@"+loc)
+			if len(out) >= 5 {
+				break
+			}
+		}
+	}
+	return strings.Join(out, " <- ")
+}
